@@ -18,13 +18,14 @@ import (
 )
 
 type Clause struct {
-	Kind  string // requires | ensures | invariant | assert
-	Label string
-	Props []string
-	Src   string
-	Expr  specExpr
-	Loop  int
-	Line  string // file:line
+	Kind    string // requires | ensures | invariant | assert
+	Label   string
+	Props   []string
+	Src     string
+	Expr    specExpr
+	Loop    int
+	Assumed bool   // an ensures clause that is used at call sites but not checked against the body
+	Line    string // file:line
 }
 
 type specExpr struct {
@@ -35,6 +36,7 @@ type specExpr struct {
 }
 
 type Contract struct {
+	ErrOrigin           string       // module whose errors the function returns (trusted contracts of wrappers around a library)
 	Peel                map[int]bool // loops (by ordinal) whose first iteration is executed before the cut
 	Key                 string       // package-local key as written
 	Full                string       // ssa function name
@@ -491,6 +493,9 @@ func (db *SpecDB) LoadSpecFile(path, pkgPath string) {
 			cur.Inline = true
 		case word == "seqmode":
 			cur.SeqMode = true
+		case word == "errors-from":
+			// errors-from <module>: the errors this (trusted, externally backed) function returns are made by that library
+			cur.ErrOrigin = strings.TrimSpace(rest)
 		case word == "establishes-graph-invariant":
 			cur.EstablishesGraphInv = true
 		case word == "callback":
@@ -571,7 +576,9 @@ func (db *SpecDB) LoadSpecFile(path, pkgPath string) {
 				}
 				cur.Assigns = append(cur.Assigns, e)
 			}
-		case word == "requires" || word == "ensures":
+		case word == "requires" || word == "ensures" || word == "assumes":
+			// assumes [label] expr: a postcondition that is USED at call sites but not checked against the body (an
+			// invariant of external state, e.g. of what the store holds); listed in the evidence as an assumption
 			props, label, body := parseTag(rest)
 			se, err := parseSpecExpr(body)
 			if err != nil {
@@ -582,6 +589,10 @@ func (db *SpecDB) LoadSpecFile(path, pkgPath string) {
 				props = cur.Props
 			}
 			cl := &Clause{Kind: word, Label: label, Props: props, Src: body, Expr: *se, Line: where}
+			if word == "assumes" {
+				cl.Kind = "ensures"
+				cl.Assumed = true
+			}
 			if word == "requires" {
 				cur.Requires = append(cur.Requires, cl)
 			} else {
